@@ -18,6 +18,8 @@
 EXTENDS Naturals, Integers, Sequences, FiniteSets, TLC
 
 CONSTANTS Pgnos,          \* page numbers used (hex values as integers, e.g. 256 = 0x100)
+          ExactFirst,     \* TRUE: put_page replaces the stored version with exactly the new key if there is one, and only
+                          \*       otherwise the first version the masked search finds (repaired code); FALSE: masked search only
           Subnos,         \* subpage numbers used in stores
           Sizes,          \* page sizes (units)
           Fns,            \* page functions used: "unknown", "lop", "pop"
@@ -86,6 +88,11 @@ Matches(i, n, pgno, sub, m) == pg[i].net = n /\ pg[i].pgno = pgno /\ Mask(pg[i].
 Lookup(n, pgno, sub, m) ==
   LET idx == {k \in 1..Len(mru) : Matches(mru[k], n, pgno, sub, m)} IN
   IF idx = {} THEN None ELSE mru[CHOOSE k \in idx : \A j \in idx : k <= j]
+
+\* the version a new page [pgno, key] replaces in network n
+OldOf(n, pgno, key) ==
+  LET exact == Lookup(n, pgno, key.s, 65535) IN
+  IF ExactFirst /\ exact # None THEN exact ELSE Lookup(n, pgno, Mask(key.s, key.m), key.m)
 
 NoStat == [nsub |-> 0, maxsub |-> 0, smin |-> 0, smax |-> 0, clock |-> FALSE]
 
@@ -201,7 +208,7 @@ Put(t, pgno, subno, fn, size, s, E) ==
   /\ nslot[t] # None /\ slot[s] = None /\ nputs < MaxPuts
   /\ LET n    == nslot[t]
          key  == KeyOf(pgno, subno, stat[<<n, pgno>>].clock)
-         old  == Lookup(n, pgno, Mask(key.s, key.m), key.m)
+         old  == OldOf(n, pgno, key)
          oldz == old # None /\ pg[old].ref > 0          \* still in use: becomes a zombie
          oldd == old # None /\ pg[old].ref = 0          \* first replacement candidate
          avail0 == limit - MemUsed + (IF oldd THEN pg[old].size ELSE 0)
@@ -312,7 +319,7 @@ PutChoices(t, pgno, subno, size) ==
   ELSE IF nslot[t] = None THEN {{}}
   ELSE LET n == nslot[t]
            key == KeyOf(pgno, subno, stat[<<n, pgno>>].clock)
-           old == Lookup(n, pgno, Mask(key.s, key.m), key.m)
+           old == OldOf(n, pgno, key)
            avail0 == limit - MemUsed + (IF old # None /\ pg[old].ref = 0 THEN pg[old].size ELSE 0)
        IN IF avail0 >= size THEN {{}} ELSE {Range(DeathRow(old, avail0, size).row)}
 UnrefChoices(s) == IF Policy = "impl" THEN {{}} ELSE SUBSET (Unref(pg) \cup {slot[s]})
@@ -355,6 +362,9 @@ StatOK == \A k \in DOMAIN stat :
             /\ stat[k].nsub = Cardinality({i \in Ids : <<pg[i].net, pg[i].pgno>> = k})
             /\ stat[k].maxsub >= stat[k].nsub
             /\ \A i \in Ids : <<pg[i].net, pg[i].pgno>> = k => pg[i].subno <= stat[k].smax   \* 'highest subpage'
+\* the store is a map: never two stored (non-zombie) versions under the same key
+UniqueKey == \A i, j \in Ids : (i # j /\ ~pg[i].zombie /\ ~pg[j].zombie) =>
+                <<pg[i].net, pg[i].pgno, pg[i].subno>> # <<pg[j].net, pg[j].pgno, pg[j].subno>>
 \* a channel switch leaves no page of another network reachable: by construction of Lookup
 \* (network is part of the key); the replacement policy as coded never collects a victim twice
 NoDupVictim == ~dupvictim
